@@ -1,6 +1,6 @@
 CHECK = dict(
     category="model_checking",
-    text='CasperNode.tla models the node with its finality engine (own votes, delivered/carried/cached verifications, justification, finalisation, fork choice). TLC checks NoConflictingFinal, FinalMonotone and FinalInMain on every reachable state of the bounded configurations (1, 3 and 4 validators, node key inside/outside the set, one Byzantine signer among four), and every explored transition is replayed with its path against a real protocol.Chain with real signatures; the finalized root, the in-memory tree and the stored checkpoint statuses are compared with the specification.',
+    text='CasperNode.tla models the node with its finality engine (own votes, delivered/carried/cached verifications, justification, finalisation, fork choice). TLC checks NoConflictingFinal, FinalMonotone and FinalInMain on every reachable state of the bounded configurations (1, 3 and 4 validators, node key inside/outside the set, one Byzantine signer among four), and every explored transition is replayed with its path against a real protocol.Chain with real signatures; the finalized root, the in-memory tree and the stored checkpoint statuses are compared with the specification. Random deep walks with a Byzantine validator (cross-branch and garbage votes, votes carried in headers) run in both tiers.',
     design_ref="DESIGN.md §6 C16, core node model",
     note='Bounded: E=2, <=4-5 blocks, <=3-4 votes, <=5-6 calls; honest validators as specified (globally justified source, no slashable pair).',
     technique="TLA+ spec + TLC exhaustive model check; every TLC transition replayed into the real Chain/Casper (state projection compared)",
